@@ -805,6 +805,42 @@ def rule_kdf_counter(ctx, prog, chk):
                         if isinstance(v, list) and v[0] == "v":
                             found = (el, v[1], sub)
         if found is None:
+            # the counter stored octet by octet: X[<input length> + c] = (uint8_t)(i >> s), c = 0..3
+            st = {}
+            for el in h.all_elements():
+                for sub in ir.walk(h, el.e):
+                    if sub[0] != "=":
+                        continue
+                    l = ir.strip_casts(sub[1])
+                    if not (isinstance(l, list) and l[0] == "x"):
+                        continue
+                    idx = ir.strip_casts(h.resolve(l[2]))
+                    off = None
+                    if isinstance(idx, list) and idx[0] == "v" and h.vars[idx[1]].get("k") == "p":
+                        off = 0
+                    elif isinstance(idx, list) and idx[0] == "b" and idx[1] == "+":
+                        a, b2 = ir.strip_casts(h.resolve(idx[2])), _const(h, idx[3])
+                        if isinstance(a, list) and a[0] == "v" and h.vars[a[1]].get("k") == "p" and b2 is not None:
+                            off = b2
+                    if off is None:
+                        continue
+                    r = ir.strip_casts(h.resolve(sub[2]))
+                    sh = 0
+                    if isinstance(r, list) and r and r[0] == "b" and r[1] == ">>" and _const(h, r[3]) is not None:
+                        sh = _const(h, r[3])
+                        r = ir.strip_casts(h.resolve(r[2]))
+                    if isinstance(r, list) and r and r[0] == "b" and r[1] == "&":
+                        r = ir.strip_casts(h.resolve(r[2]))
+                    if isinstance(r, list) and r and r[0] == "v":
+                        st[off] = (sh, el.line)
+            if sorted(st) == [0, 1, 2, 3]:
+                n += 1
+                got = [st[k][0] for k in range(4)]
+                if got == [24, 16, 8, 0]:
+                    chk.ok("KDF-COUNTER", h, "octets", "four big-endian octets after the input (stored one by one)", line=st[0][1])
+                else:
+                    chk.fail("KDF-COUNTER", h, "octets", "the four counter octets after the input take the counter shifted by %s, big-endian order needs [24, 16, 8, 0]: blocks whose counter does not fit the octets that are right are derived from a wrong counter string" % got, line=st[0][1])
+                continue
             chk.note("KDF-COUNTER: %s: no memcpy of a counter variable found, byte order not decided" % h.name)
             continue
         n += 1
@@ -878,7 +914,7 @@ def run(ctx, chk):
     chk.floor("LEN-CARRY", "functions adding to a multi-word bit length", c["carry"], 2)
     chk.floor("PKCS7-REJECT", "unpadding release points and wrappers", c["pkcs7"], 2)
     chk.floor("HMAC-KEY", "HMAC key preparations", c["hmac"], 1)
-    chk.floor("KDF-COUNTER", "counter starts and counter encodings", c["kdf"], 3)
+    chk.floor("KDF-COUNTER", "counter starts and counter encodings", c["kdf"], 2)
     chk.floor("SHIFT-DEAD", "right shifts by a constant", c["shift"], 100)
     if chk.tier == "thorough":
         from .. import facts
